@@ -81,6 +81,11 @@ func Comp(r *rand.Rand, maxLen int) enc.Component {
 // Name generates a name of 0..maxComps components.
 func Name(r *rand.Rand, maxComps, maxLen int) enc.Name {
 	n := r.Intn(maxComps + 1)
+	if maxComps >= 8 && r.Intn(50) == 0 {
+		// now and then a deep name (limits on the number of components are not part of any statement)
+		n = []int{31, 32, 33, 34, 40, 64, 65, 70}[r.Intn(8)]
+		maxLen = min(maxLen, 3)
+	}
 	ret := make(enc.Name, n)
 	for i := range ret {
 		ret[i] = Comp(r, maxLen)
